@@ -51,3 +51,28 @@ Theorem C11_print_refines :
       (c_print letters path mods pfx sfx raw) (APrint letters path mods pfx sfx raw).
 Proof. exact print_ref. Qed.
 Print Assumptions C11_print_refines.
+
+(* ---- a failing modifier, in the reference semantics (Proofs/SpecFacts.v) ---- *)
+From Coq Require Import String.
+From DT Require Import Proofs.SpecFacts.
+
+(* nothing is emitted -- not the value, not the prefix, not the suffix -- and there is no signal *)
+Theorem C11_failing_modifier_prints_nothing : forall e letters path mods pfx sfx raw v x,
+  env_get e path = Some v -> print_value e letters mods v = ChE x ->
+  ref_print e letters path mods pfx sfx raw = ([], e, SNone).
+Proof. exact failing_modifier_prints_nothing. Qed.
+Print Assumptions C11_failing_modifier_prints_nothing.
+
+Theorem C11_failing_modifier_print_item : forall flits rlookup budget rinc e letters path mods pfx sfx raw v x,
+  env_get e path = Some v -> print_value e letters mods v = ChE x ->
+  ref_eval flits rlookup budget rinc (APrint letters path mods pfx sfx raw) e = ([], e, SNone).
+Proof. exact failing_modifier_print_item. Qed.
+Print Assumptions C11_failing_modifier_print_item.
+
+Example C11_failing_modifier_example :
+  print_value e_loop [] [mkAMod (Sb "default"%string) []] (VInt 5) = ChE MENoArgs /\
+  ref_eval [] (fun _ => None) 10 (fun _ _ => None)
+           (APrint [] (Sb "n"%string) [mkAMod (Sb "default"%string) []] (Sb "<"%string) (Sb ">"%string) false) e_loop = ([], e_loop, SNone) /\
+  ref_eval [] (fun _ => None) 10 (fun _ _ => None)
+           (APrint [] (Sb "n"%string) [] (Sb "<"%string) (Sb ">"%string) false) e_loop = (Sb "<5>"%string, e_loop, SNone).
+Proof. exact failing_modifier_example. Qed.
